@@ -1,6 +1,7 @@
 /* socket model (C15): Poco::Net::StreamSocket::receiveBytes over the harness's symbolic byte stream.
    Contract: a call asking for n >= 1 bytes returns k bytes with 1 <= k <= min(n, available), k chosen by the solver
    (chunk boundaries are symbolic), copies exactly those k next stream bytes, or returns 0 at stream end (peer closed).
+   -DVF_WHOLE: every request is delivered in one chunk (structured defect-exposing harnesses only; chunking is covered elsewhere).
    -DVF_SPLIT1: every sockRead request is delivered in at most two chunks (one arbitrary split point per request).
    The copy is a constant-trip loop of guarded byte stores (no symbolic-length memcpy). EAGAIN/negative returns are
    outside the model (stated in the claim). */
@@ -11,7 +12,7 @@
 #define VF_CHUNK_MAX 16            /* largest single request of the code under test within the harness bounds */
 #endif
 static uint8_t vf_stream[STREAM_MAX]; static uint32_t vf_stream_len, vf_stream_pos, vf_recv_calls;
-static uint8_t vf_fresh = 1;
+static uint8_t vf_fresh = 1; static uint32_t vf_req_end;
 #ifndef VF_MAXCALLS
 #define VF_MAXCALLS 48
 #endif
@@ -26,14 +27,26 @@ uint32_t x__ZN4Poco3Net12StreamSocket12receiveBytesEPvii(struct S_class_2ePoco_3
   uint32_t lim = n < avail ? n : avail;
   __CPROVER_assert(lim <= VF_CHUNK_MAX, "socket model: deliverable chunk within VF_CHUNK_MAX");
   uint32_t k = nondet_u32(); __CPROVER_assume(k >= 1 && k <= lim);
+#ifdef VF_WHOLE
+  k = lim;                                                    /* no splitting: every request is delivered in one piece (as far as the stream goes) */
+#endif
 #ifdef VF_SPLIT1
+  uint32_t req_end = vf_fresh ? vf_stream_pos + n : vf_req_end;   /* stream position at which the current request is complete */
   if (!vf_fresh) k = lim;                                     /* second chunk of a request: everything that is left */
+  vf_req_end = req_end;
   vf_fresh = (k == n);
 #endif
   for (uint32_t i = 0; i < VF_CHUNK_MAX && i < n; i++)   if (i < k) buf[i] = vf_stream[vf_stream_pos + i];   /* (i < n folds the loop for constant 1-byte requests) */
 #ifndef VF_NO_CHUNKREC
   if (vf_recv_calls <= VF_MAXCALLS) cx_chunk[vf_recv_calls - 1] = (uint8_t)k;
 #endif
-  vf_stream_pos += k; return k;
+#ifdef VF_SPLIT1
+  /* same value as vf_stream_pos + k; written so that the position after a completed request is the constant the request started
+     from plus its size (keeps the stream position concrete for CBMC's constant propagation whatever the split point was) */
+  vf_stream_pos = (k == n) ? req_end : vf_stream_pos + k;
+#else
+  vf_stream_pos += k;
+#endif
+  return k;
 }
 static uint32_t vf_errno; uint32_t *x___errno_location(void) { return &vf_errno; }
